@@ -395,6 +395,74 @@ def _setattr(t, name, value):
     return t
 
 
+def fresh_writes(F):
+    """C15: a brand-new vector or table shares storage with nothing, so its first write is accepted - whatever else the program
+    holds at that moment (zero-row tables, empty selections, rows, transposes, tables that lost their columns ...) and whatever
+    it built and dropped before.  The populations are kept ALIVE while the fresh objects are made and written."""
+    from serif import AliasError
+    ex = 0
+
+    def base(k, n=3):
+        return Table([Vector(list(range(10 * j, 10 * j + n)), name="c%d" % j) for j in range(k)])
+    keepers = {
+        "zero-row tables (a filter that keeps nothing)": lambda k: base(k)[base(k).c0 > 1000],
+        "zero-row tables (an empty row slice)": lambda k: base(k)[3:],
+        "zero-row tables (an all-False mask)": lambda k: base(k)[[False, False, False]],
+        "tables of empty vectors": lambda k: Table([Vector([], name="c%d" % j) for j in range(k)]),
+        "one-row tables": lambda k: base(k, 1),
+        "column selections": lambda k: base(k)[tuple("c%d" % j for j in range(k))],
+        "transposes": lambda k: base(3, k).T,
+        "rows": lambda k: base(k)[1],
+        "copies": lambda k: base(k).copy(),
+        "stacked tables": lambda k: base(k) << base(k),
+        "empty vectors": lambda k: Vector(list(range(k)))[0:0],
+        "joined tables": lambda k: base(k).inner_join(base(k), "c0", "c0"),
+    }
+    for kname, keep in keepers.items():
+        for k in (1, 2, 3, 4):
+            held = []
+            for _ in range(40):
+                st, obj, e = attempt(lambda: keep(k))
+                if st == "ok":
+                    held.append(obj)
+            for _ in range(30):
+                attempt(lambda: keep(k))               # built and dropped: their storage ids are free again
+            kept = []
+            who = "%d %s with %d columns" % (len(held), kname, k)
+            # fresh vectors first (nothing else is built in between, so their storage walks through the freed slots) ...
+            for pattern in (3, 2, 0):
+                for i in range(200):
+                    for ln in ((k,) if i % 4 else (k, k + 1, 1)):
+                        st, v, e = attempt(lambda: Vector([i + j for j in range(ln)]))
+                        if st != "ok":
+                            continue
+                        ex += 1
+                        if pattern and i % pattern == 0:
+                            kept.append(v)          # vary the allocation pattern
+                        try:
+                            v[0] = -5
+                        except AliasError:
+                            F.add("spurious_refusal", {"alive meanwhile": who, "fresh vector of length": ln}, "AliasError on the first write to a brand-new vector", "accepted")
+                        except Exception:      # noqa: BLE001
+                            pass
+            # ... then fresh tables
+            for i in range(100):
+                st, t, e = attempt(lambda: base(k))
+                if st == "ok":
+                    ex += 1
+                    if i % 3 == 0:
+                        kept.append(t)
+                    try:
+                        t[0, 0] = 5
+                        t.c0[1] = 6
+                    except AliasError:
+                        F.add("spurious_refusal", {"alive meanwhile": who}, "AliasError on the first write to a brand-new table", "accepted")
+                    except Exception:      # noqa: BLE001
+                        pass
+            del held, kept
+    return ex
+
+
 def edge_tables(F, mon):
     """zero-column left operands of >>, rows holding bytes-like cells, column requests that name an ATTRIBUTE"""
     ex = 0
@@ -463,6 +531,7 @@ def edge_tables(F, mon):
 def struct(out_path):
     F, mon, ex = Fails(), Monitor(), 0
     ex += tuple_donors(F)
+    ex += fresh_writes(F)
     ex += edge_tables(F, mon)
     cells_dom = [None, 0, 1]
     for ncols in (1, 2, 3):
@@ -501,8 +570,15 @@ def struct(out_path):
                 newcol = [5] * nrows
                 for label, mk in (("t >> Vector", lambda: t >> Vector(list(newcol), name="z")),
                                   ("t >> {name: list}", lambda: t >> {"z": list(newcol)}),
-                                  ("t >> list", lambda: t >> list(newcol))):
-                    if nrows == 0 and label != "t >> {name: list}":
+                                  ("t >> list", lambda: t >> list(newcol)),
+                                  # a new column that is NAMED like an existing one is still appended (repeated names are legal)
+                                  ("t >> {existing name: list}", lambda: t >> {names[0]: list(newcol)}),
+                                  ("t >> {Existing Name: list}", lambda: t >> {names[0].upper(): list(newcol)}),
+                                  ("t >> {last name: list}", lambda: t >> {names[-1]: list(newcol)}),
+                                  ("t >> Vector named like a column", lambda: t >> Vector(list(newcol), name=names[0])),
+                                  ("t >> table with a column named like one", lambda: t >> Table([Vector(list(newcol), name=names[-1])])),
+                                  ("t >>= {existing name: list}", lambda: _irshift(Table([Vector(list(col), name=names[i]) for i, col in enumerate(cols)]), {names[0]: list(newcol)}))):
+                    if nrows == 0 and not label.startswith("t >> {"):
                         continue
                     st, r, e = attempt(mk)
                     ex += 1
@@ -609,6 +685,11 @@ def struct(out_path):
     json.dump({"executed": ex, "failures": F.items, "per_clause": F.per, "skipped": F.skipped, **mon.dump()}, open(out_path, "w"), default=str)
 
 
+def _irshift(t, x):
+    t >>= x
+    return t
+
+
 # ------------------------------------------------------------------------------ attribute broadcasting (C05)
 ARGS = {
     "str": {"center": (9,), "count": ("a",), "encode": (), "endswith": ("a",), "expandtabs": (), "find": ("a",), "format": (),
@@ -636,7 +717,9 @@ MORE_ARGS = {
     "float": {"hex": [()], "is_integer": [()], "as_integer_ratio": [()]},
     "date": {"replace": [(2000,), (2001, 2, 3)], "strftime": [("%d/%m/%y",), ("",)], "isoformat": [()], "weekday": [()], "toordinal": [()]},
 }
-VALUES = {"str": ["apple pie", "Banana", "a", "", "cab a", "a,b,c d,e", " x  y z ", "aXbXc"], "int": [5, -3, 0, 1024], "float": [1.5, -2.25, 0.0, 8.0],
+VALUES = {"str": ["apple pie", "Banana", "a", "", "cab a", "a,b,c d,e", " x  y z ", "aXbXc",
+                  # word boundaries, case pairs and digits as Python's own methods see them
+                  "they're o'neil's", "x1y 2nd 3D", "mc-donald_o.k", "\u4e2da\u6587b c\u4e2d", "stra\u00dfe \u01c6ur", "\u00e9cole d'\u00e9t\u00e9", "tab\tsep\nline", "\u0130i \u03c3\u03c2"], "int": [5, -3, 0, 1024], "float": [1.5, -2.25, 0.0, 8.0],
           "date": [date(2020, 2, 29), date(1999, 12, 31), date(2024, 1, 1)]}
 
 
